@@ -171,6 +171,11 @@ class C17(Prop):
             seq = "".join((r.choice("RYKMSWryn") if (c != "N" and r.random() < 0.01) else
                            c.lower() if r.random() < 0.02 else c) for c in seq)
             lines.append(f">{sc['name']}\n" + "".join(seq[i : i + 60] + "\n" for i in range(0, len(seq), 60)))
+        # one more record, not shown in the map: N runs that END exactly at a line end (where the
+        # indexer flushes its buffer) followed by a line that begins with sequence, and N runs that fill lines
+        al = ("".join(r.choices("ACGT", k=60)) + "".join(r.choices("ACGT", k=35)) + "N" * 25 + "".join(r.choices("ACGT", k=60))
+              + "N" * 60 + "".join(r.choices("ACGT", k=50)) + "N" * 10 + "".join(r.choices("ACGT", k=17)))
+        lines.append(">aligned_runs\n" + "".join(al[i : i + 60] + "\n" for i in range(0, len(al), 60)))
         (d / "in.fa").write_text("".join(lines))
         ptx = case["pretext"]
         out = ["##agp-version\t2.1", f"# HiC MAP RESOLUTION: {ptx['bpt']} bp/texel"]
